@@ -34,7 +34,7 @@ func c11(c *ctx) {
 	}
 	cfgs := []config{{name: "memo", v: vPlain, memo: true}, {name: "nomemo", v: vPlain}, {name: "pretty", v: vPlain, memo: true, pretty: true},
 		{name: "inline", v: vInline, memo: true}, {name: "switch", v: vSwitch, memo: true}, {name: "both", v: vBoth, memo: true, pretty: true}}
-	f := &family{c: c, tag: "c11", configs: cfgs, noexec: true, history: []string{"memo", "both"}}
+	f := &family{c: c, tag: "c11", configs: cfgs, noexec: true, history: []string{"memo", "both"}, reinit: true}
 	f.judge = func(cs *gcase, e entry, it *ref.Interp, refOK bool, refEnd int, res map[string]*corpus.Res) {
 		id := report.Hash(cs.text, e.input)
 		in := []rune(e.input)
